@@ -2,6 +2,7 @@ package checks
 
 import (
 	"fmt"
+	"math/rand"
 	"reflect"
 	"sort"
 	"strings"
@@ -156,6 +157,23 @@ func c08Judge(c *mon.Ctx, src lint.Registry, srcInv []mon.LintInfo, srcLabel str
 		c.V("wrong-selection", fmt.Sprintf("Filter selected the wrong set: missing %v, unexpected %v (%s)", clip(miss, 5), clip(extraN, 5), desc), "", nil, extra)
 		return got
 	}
+	// the per-kind listings hold exactly the selected lints (Names() alone would not show a wrong Lints() slice)
+	inListing := map[string]int{}
+	for _, l := range got.CertificateLints().Lints() {
+		inListing[l.Name]++
+	}
+	for _, l := range got.RevocationListLints().Lints() {
+		inListing[l.Name]++
+	}
+	for _, l := range got.OcspResponseLints().Lints() {
+		inListing[l.Name]++
+	}
+	for n, k := range inListing {
+		if !sel[n] || k != 1 {
+			c.V("lints-listing-content", fmt.Sprintf("Lints() of the filtered registry lists %s %d time(s) although selected=%v (%s)", n, k, sel[n], desc), n, nil, extra)
+			break
+		}
+	}
 	// kind, metadata, identity of each selected lint; nothing else reachable
 	byName := map[string]mon.LintInfo{}
 	for _, li := range srcInv {
@@ -281,9 +299,34 @@ func init() {
 			g := lint.GlobalRegistry()
 			o := randFilter(rng, i%3 == 0)
 			r1 := c08Judge(c, g, Inv, "global", o)
+			// a registry obtained earlier must stay what it was, whatever is filtered afterwards: in particular
+			// after a "sibling" selection (same options, one list varied) that shares everything but a tail
+			if r1 != nil && r1 != g {
+				snap := snapshotReg(r1)
+				listing := c08Listing(r1)
+				for k := 0; k < 2; k++ {
+					o2 := c08Sibling(rng, o)
+					if r2, err := g.Filter(o2); err == nil && r2 != nil && k == 1 {
+						_ = r2.Names()
+					}
+				}
+				c.R.Count("stability_checks", 1)
+				if !snap.equal(snapshotReg(r1)) || listing != c08Listing(r1) {
+					c.V("earlier-registry-changed", "a registry returned by Filter changed after later Filter calls on its source ("+describeFilter(o)+")", "", nil, map[string]any{"options": describeFilter(o)})
+				}
+				c08History = append(c08History, c08Kept{r1, snap, listing, describeFilter(o)})
+				if len(c08History) > 24 {
+					old := c08History[0]
+					c08History = c08History[1:]
+					if !old.snap.equal(snapshotReg(old.reg)) || old.listing != c08Listing(old.reg) {
+						c.V("earlier-registry-changed", "a registry returned by Filter 24 selections ago is no longer what it was ("+old.desc+")", "", nil, map[string]any{"options": old.desc})
+					}
+				}
+			}
 			// chained: filter a filtered registry that has its own configuration
 			if r1 != nil && r1 != g && i%4 == 0 {
 				cfgs := basicConfigs()
+				r1, _ = g.Filter(o) // a registry of its own: the ones kept for the stability history are never touched by the harness
 				r1.SetConfiguration(mustConfig(cfgs[rng.Intn(len(cfgs))].Text))
 				inv1 := mon.Inventory(r1)
 				if len(inv1) > 0 {
@@ -311,6 +354,54 @@ func init() {
 			return gates
 		},
 	})
+}
+
+type c08Kept struct {
+	reg     lint.Registry
+	snap    regSnapshot
+	listing string
+	desc    string
+}
+
+var c08History []c08Kept
+
+// c08Listing is the per-kind Lints() listing (names in listing order), which Names()/ByName() do not show.
+func c08Listing(r lint.Registry) string {
+	var b strings.Builder
+	for _, l := range r.CertificateLints().Lints() {
+		b.WriteString(l.Name + ",")
+	}
+	b.WriteString("|")
+	for _, l := range r.RevocationListLints().Lints() {
+		b.WriteString(l.Name + ",")
+	}
+	b.WriteString("|")
+	for _, l := range r.OcspResponseLints().Lints() {
+		b.WriteString(l.Name + ",")
+	}
+	for _, s := range allSources() {
+		b.WriteString(fmt.Sprintf("|%s:%d,%d,%d", s, len(r.CertificateLints().BySource(s)), len(r.RevocationListLints().BySource(s)), len(r.OcspResponseLints().BySource(s))))
+	}
+	return b.String()
+}
+
+// c08Sibling varies one list of o: same head, different tail.
+func c08Sibling(rng *rand.Rand, o lint.FilterOptions) lint.FilterOptions {
+	srcs := allSources()
+	n := o
+	switch {
+	case len(o.IncludeSources) > 0:
+		n.IncludeSources = append(lint.SourceList{o.IncludeSources[0]}, srcs[rng.Intn(len(srcs))], srcs[rng.Intn(len(srcs))])
+	case len(o.ExcludeSources) > 0:
+		n.ExcludeSources = append(lint.SourceList{o.ExcludeSources[0]}, srcs[rng.Intn(len(srcs))])
+	case len(o.IncludeNames) > 0:
+		n.IncludeNames = append([]string{o.IncludeNames[0]}, Inv[rng.Intn(len(Inv))].Name, Inv[rng.Intn(len(Inv))].Name)
+	case len(o.ExcludeNames) > 0:
+		n.ExcludeNames = append([]string{o.ExcludeNames[0]}, Inv[rng.Intn(len(Inv))].Name)
+	default:
+		n.IncludeSources = lint.SourceList{srcs[rng.Intn(len(srcs))], srcs[rng.Intn(len(srcs))]}
+	}
+	return n
 }
 
 // randFilterOver draws options over a sub-inventory (for chained filters).
